@@ -13,7 +13,7 @@
    increasing across row groups.  How pandas computes max()/min() of a Series and how a DataFrame cell
    maps to its physical value are NOT modelled (trusted glue, exercised by the oracle run).            *)
 From Coq Require Import NArith ZArith List Bool.
-From Pq Require Import Base.Bytes Impl.Stats Proofs.StatsProofs Format.Utf8 Proofs.Utf8Proofs.
+From Pq Require Import Base.Bytes Impl.Stats Proofs.StatsProofs Proofs.StatsBoundsProofs Format.Utf8 Proofs.Utf8Proofs.
 Import ListNotations.
 
 Theorem C04_minmax_exact : forall o : ordk, minmax_exact_statement N (leb_of o) (ordered_of o).
@@ -139,3 +139,38 @@ Example C04_nonvacuous :
                   [[Some 1; None]; [Some 0; Some 2]]%nat = mk_stats (Some 10) (Some 30) 1%N
   /\ cat_minmax_old N [30; 10; 20; 5]%N [Some 1; None; Some 0; Some 2]%nat = Some (30, 20)%N.
 Proof. vm_compute. repeat split; reflexivity. Qed.
+
+(* ---- what exactness adds to "valid bounds" (BYTE_ARRAY / UTF8 columns, byte-wise order) -------------
+   C05's pruning needs only valid bounds; C04 asks that min and max ARE stored values. *)
+Theorem C04_exact_implies_valid_bounds : forall (l : cells bytes) (st : stats bytes),
+  exact bytes lex_leb (fun _ => true) l st -> valid_bounds l st.
+Proof. exact exact_valid_bounds. Qed.
+Print Assumptions C04_exact_implies_valid_bounds.
+
+Theorem C04_bytes_minmax_are_stored_values : forall (l : cells bytes) (st : stats bytes),
+  exact bytes lex_leb (fun _ => true) l st ->
+  (forall mn, s_min st = Some mn -> In (Some mn) l) /\ (forall mx, s_max st = Some mx -> In (Some mx) l).
+Proof. exact exact_stored_values. Qed.
+Print Assumptions C04_bytes_minmax_are_stored_values.
+
+Theorem C04_bytes_exact_unique : forall (l : cells bytes) (st1 st2 : stats bytes) mn1 mn2 mx1 mx2,
+  exact bytes lex_leb (fun _ => true) l st1 -> exact bytes lex_leb (fun _ => true) l st2 ->
+  s_min st1 = Some mn1 -> s_min st2 = Some mn2 -> s_max st1 = Some mx1 -> s_max st2 = Some mx2 ->
+  mn1 = mn2 /\ mx1 = mx2.
+Proof. exact exact_unique. Qed.
+Print Assumptions C04_bytes_exact_unique.
+
+(* a statistic cut to a strict prefix p of the stored value p ++ t (every p, every non-empty t): as MIN it is a valid
+   lower bound, yet not exact and rejected by the tie's relation check_stats; as MAX it is not even an upper bound *)
+Theorem C04_prefix_min_valid_not_exact : forall (p t : bytes), t <> [] ->
+  let l := [Some (p ++ t)] in
+  valid_bounds l (mk_stats (Some p) (Some (p ++ t)) 0) /\
+  ~ exact bytes lex_leb (fun _ => true) l (mk_stats (Some p) (Some (p ++ t)) 0) /\
+  check_stats bytes lex_leb (fun _ => true) l (mk_stats (Some p) (Some (p ++ t)) 0) = false.
+Proof. exact prefix_min_valid_not_exact. Qed.
+Print Assumptions C04_prefix_min_valid_not_exact.
+
+Theorem C04_prefix_max_not_a_bound : forall (p t : bytes), t <> [] ->
+  ~ is_upper bytes lex_leb (fun _ => true) [Some (p ++ t)] p.
+Proof. exact prefix_max_not_a_bound. Qed.
+Print Assumptions C04_prefix_max_not_a_bound.
